@@ -6,11 +6,16 @@
 (* Destinations.add(d).  List objects live in a heap (`lists`) because the *)
 (* race depends on WHICH list object a `for` loop captured.                *)
 (*                                                                         *)
-(* Variant = "fixed": the code as repaired (fix: commit 9b16ca8): the new  *)
-(*   list is published in one assignment; BufferingDestination.__call__    *)
-(*   takes the buffer's lock and, once `_forward` is set, passes late      *)
-(*   arrivals on to send(); add() re-delivers and sets `_forward` under    *)
-(*   that lock.                                                            *)
+(* Variant = "fixed": the code as repaired (fix: commits 9b16ca8, F15):     *)
+(*   BufferingDestination.__call__ takes the buffer's lock and, once       *)
+(*   `_forward` is set, passes late arrivals on to send(); add() takes     *)
+(*   that lock, re-delivers the buffered messages to the NEW list object   *)
+(*   while senders still see the buffer, then publishes the new list in    *)
+(*   one assignment and sets `_forward`.                                   *)
+(* Variant = "swapfirst": the first repair (9b16ca8 alone): the new list   *)
+(*   is published BEFORE the re-delivery; a sender that picks it up        *)
+(*   during the re-delivery overtakes the buffered messages -- TLC must    *)
+(*   reject C12_InOrder (second vacuity guard).                            *)
 (* Variant = "orig": the code before the repair (list emptied, then        *)
 (*   extended; no lock; no forwarding) -- TLC must find the lost message   *)
 (*   (finding F1); kept as a permanent vacuity guard.                      *)
@@ -19,69 +24,75 @@ EXTENDS Naturals, Sequences, FiniteSets, TLC
 CONSTANTS K, Variant
 VARIABLES lists, dref, bufmsgs, anyAdded, forward, lock, recv,
           lpc, lmsg, lstack,      \* logger thread: pc, current message, stack of loop frames [lst, idx]
-          apc, aj, aframe         \* adder thread: pc, index into the buffered messages, loop frame of its nested send
-vars == <<lists, dref, bufmsgs, anyAdded, forward, lock, recv, lpc, lmsg, lstack, apc, aj, aframe>>
-Fixed == Variant = "fixed"
+          apc, aj, aframe,        \* adder thread: pc, index into the buffered messages, loop frame of its nested send
+          nref                    \* adder thread: the new list object, not yet published (Variant "fixed")
+vars == <<lists, dref, bufmsgs, anyAdded, forward, lock, recv, lpc, lmsg, lstack, apc, aj, aframe, nref>>
+Fixed == Variant \in {"fixed", "swapfirst"}
+Late == Variant = "fixed"        \* the new list is published after the re-delivery
 Init == /\ lists = <<<<"buf">>>> /\ dref = 1 /\ bufmsgs = <<>> /\ anyAdded = FALSE /\ forward = FALSE /\ lock = "none"
         /\ recv = <<>> /\ lpc = "idle" /\ lmsg = 1 /\ lstack = <<>>
-        /\ apc = "a1" /\ aj = 0 /\ aframe = [lst |-> 0, idx |-> 0]
+        /\ apc = "a1" /\ aj = 0 /\ aframe = [lst |-> 0, idx |-> 0] /\ nref = 0
 Top == lstack[Len(lstack)]
 SetTop(f) == [lstack EXCEPT ![Len(lstack)] = f]
 Pop == SubSeq(lstack, 1, Len(lstack) - 1)
 \* ---- thread L: for m in 1..K: send(m)
 LBegin == /\ lpc = "idle" /\ lmsg <= K
           /\ lpc' = "iter" /\ lstack' = <<[lst |-> dref, idx |-> 1]>>            \* `for dest in self._destinations` captures the list
-          /\ UNCHANGED <<lists, dref, bufmsgs, anyAdded, forward, lock, recv, lmsg, apc, aj, aframe>>
+          /\ UNCHANGED <<lists, dref, bufmsgs, anyAdded, forward, lock, recv, lmsg, apc, aj, aframe, nref>>
 LIter == /\ lpc = "iter"
          /\ IF Top.idx <= Len(lists[Top.lst])
             THEN IF lists[Top.lst][Top.idx] = "buf"
-                 THEN /\ lpc' = (IF Fixed THEN "b_acq" ELSE "b_app") /\ UNCHANGED <<recv, lstack, lmsg>>
-                 ELSE /\ recv' = Append(recv, lmsg) /\ lstack' = SetTop([Top EXCEPT !.idx = @ + 1]) /\ UNCHANGED <<lpc, lmsg>>
+                 THEN /\ lpc' = (IF Fixed THEN "b_acq" ELSE "b_app") /\ UNCHANGED <<recv, lstack, lmsg, nref>>
+                 ELSE /\ recv' = Append(recv, lmsg) /\ lstack' = SetTop([Top EXCEPT !.idx = @ + 1]) /\ UNCHANGED <<lpc, lmsg, nref>>
             ELSE \* this loop is over: return to the enclosing send (forwarding), or the call is complete
-                 IF Len(lstack) > 1 THEN /\ lstack' = [Pop EXCEPT ![Len(lstack) - 1].idx = @ + 1] /\ UNCHANGED <<lpc, lmsg, recv>>
+                 IF Len(lstack) > 1 THEN /\ lstack' = [Pop EXCEPT ![Len(lstack) - 1].idx = @ + 1] /\ UNCHANGED <<lpc, lmsg, recv, nref>>
                  ELSE /\ lpc' = "idle" /\ lmsg' = lmsg + 1 /\ lstack' = <<>> /\ UNCHANGED recv
-         /\ UNCHANGED <<lists, dref, bufmsgs, anyAdded, forward, lock, apc, aj, aframe>>
+         /\ UNCHANGED <<lists, dref, bufmsgs, anyAdded, forward, lock, apc, aj, aframe, nref>>
 \* BufferingDestination.__call__ (fixed): with self._lock: if self._forward is None: append; return  /  forward
 LBAcq == /\ lpc = "b_acq" /\ lock = "none" /\ lock' = "L" /\ lpc' = "b_chk"
-         /\ UNCHANGED <<lists, dref, bufmsgs, anyAdded, forward, recv, lmsg, lstack, apc, aj, aframe>>
+         /\ UNCHANGED <<lists, dref, bufmsgs, anyAdded, forward, recv, lmsg, lstack, apc, aj, aframe, nref>>
 LBChk == /\ lpc = "b_chk" /\ lpc' = (IF forward THEN "b_relf" ELSE "b_app")
-         /\ UNCHANGED <<lists, dref, bufmsgs, anyAdded, forward, lock, recv, lmsg, lstack, apc, aj, aframe>>
+         /\ UNCHANGED <<lists, dref, bufmsgs, anyAdded, forward, lock, recv, lmsg, lstack, apc, aj, aframe, nref>>
 LBApp == /\ lpc = "b_app" /\ bufmsgs' = Append(bufmsgs, lmsg)
          /\ lpc' = (IF Fixed THEN "b_rel" ELSE "iter")
          /\ lstack' = (IF Fixed THEN lstack ELSE SetTop([Top EXCEPT !.idx = @ + 1]))
-         /\ UNCHANGED <<lists, dref, anyAdded, forward, lock, recv, lmsg, apc, aj, aframe>>
+         /\ UNCHANGED <<lists, dref, anyAdded, forward, lock, recv, lmsg, apc, aj, aframe, nref>>
 LBRel == /\ lpc = "b_rel" /\ lock' = "none" /\ lpc' = "iter" /\ lstack' = SetTop([Top EXCEPT !.idx = @ + 1])
-         /\ UNCHANGED <<lists, dref, bufmsgs, anyAdded, forward, recv, lmsg, apc, aj, aframe>>
+         /\ UNCHANGED <<lists, dref, bufmsgs, anyAdded, forward, recv, lmsg, apc, aj, aframe, nref>>
 LBRelF == /\ lpc = "b_relf" /\ lock' = "none" /\ lpc' = "iter"
           /\ lstack' = Append(lstack, [lst |-> dref, idx |-> 1])                 \* self._forward(message): a nested send()
-          /\ UNCHANGED <<lists, dref, bufmsgs, anyAdded, forward, recv, lmsg, apc, aj, aframe>>
+          /\ UNCHANGED <<lists, dref, bufmsgs, anyAdded, forward, recv, lmsg, apc, aj, aframe, nref>>
 \* ---- thread A: add("d"), first call
 A1 == /\ apc = "a1" /\ apc' = (IF anyAdded THEN "ext" ELSE "a2")
-      /\ UNCHANGED <<lists, dref, bufmsgs, anyAdded, forward, lock, recv, lpc, lmsg, lstack, aj, aframe>>
+      /\ UNCHANGED <<lists, dref, bufmsgs, anyAdded, forward, lock, recv, lpc, lmsg, lstack, aj, aframe, nref>>
 A2 == /\ apc = "a2" /\ anyAdded' = TRUE /\ apc' = "a3"
-      /\ UNCHANGED <<lists, dref, bufmsgs, forward, lock, recv, lpc, lmsg, lstack, aj, aframe>>
+      /\ UNCHANGED <<lists, dref, bufmsgs, forward, lock, recv, lpc, lmsg, lstack, aj, aframe, nref>>
 A3 == /\ apc = "a3"
-      /\ IF Fixed THEN /\ lists' = Append(lists, <<"d">>) /\ dref' = Len(lists) + 1 /\ apc' = "a_acq"     \* one assignment
-                  ELSE /\ lists' = Append(lists, <<>>) /\ dref' = Len(lists) + 1 /\ apc' = "ext"           \* self._destinations = []
+      /\ CASE Variant = "fixed" -> /\ lists' = Append(lists, <<"d">>) /\ nref' = Len(lists) + 1 /\ apc' = "a_acq" /\ UNCHANGED dref   \* new_destinations = list(destinations)
+           [] Variant = "swapfirst" -> /\ lists' = Append(lists, <<"d">>) /\ dref' = Len(lists) + 1 /\ apc' = "a_acq" /\ UNCHANGED nref  \* published at once
+           [] OTHER -> /\ lists' = Append(lists, <<>>) /\ dref' = Len(lists) + 1 /\ apc' = "ext" /\ UNCHANGED nref                      \* self._destinations = []
       /\ UNCHANGED <<bufmsgs, anyAdded, forward, lock, recv, lpc, lmsg, lstack, aj, aframe>>
 AExt == /\ apc = "ext" /\ lists' = [lists EXCEPT ![dref] = Append(@, "d")] /\ apc' = "loop" /\ aj' = 1
-        /\ UNCHANGED <<dref, bufmsgs, anyAdded, forward, lock, recv, lpc, lmsg, lstack, aframe>>
+        /\ UNCHANGED <<dref, bufmsgs, anyAdded, forward, lock, recv, lpc, lmsg, lstack, aframe, nref>>
 AAcq == /\ apc = "a_acq" /\ lock = "none" /\ lock' = "A" /\ apc' = "loop" /\ aj' = 1
-        /\ UNCHANGED <<lists, dref, bufmsgs, anyAdded, forward, recv, lpc, lmsg, lstack, aframe>>
+        /\ UNCHANGED <<lists, dref, bufmsgs, anyAdded, forward, recv, lpc, lmsg, lstack, aframe, nref>>
 \* for message in buffered_messages: self.send(message)        (iterates the live list object)
 ALoop == /\ apc = "loop"
-         /\ IF aj <= Len(bufmsgs) THEN /\ apc' = "siter" /\ aframe' = [lst |-> dref, idx |-> 1] /\ UNCHANGED <<aj, forward, lock>>
-            ELSE IF Fixed THEN /\ forward' = TRUE /\ apc' = "a_rel" /\ UNCHANGED <<aj, aframe, lock>>
-            ELSE /\ apc' = "done" /\ UNCHANGED <<aj, aframe, forward, lock>>
-         /\ UNCHANGED <<lists, dref, bufmsgs, anyAdded, recv, lpc, lmsg, lstack>>
+         /\ IF aj <= Len(bufmsgs) THEN /\ apc' = "siter" /\ aframe' = [lst |-> (IF Late THEN nref ELSE dref), idx |-> 1] /\ UNCHANGED <<aj, forward, lock, dref>>
+            ELSE IF Late THEN /\ dref' = nref /\ apc' = "a_fwd" /\ UNCHANGED <<aj, aframe, lock, forward>>       \* self._destinations = new_destinations
+            ELSE IF Fixed THEN /\ forward' = TRUE /\ apc' = "a_rel" /\ UNCHANGED <<aj, aframe, lock, dref>>
+            ELSE /\ apc' = "done" /\ UNCHANGED <<aj, aframe, forward, lock, dref>>
+         /\ UNCHANGED <<lists, bufmsgs, anyAdded, recv, lpc, lmsg, lstack, nref>>
+AFwd == /\ apc = "a_fwd" /\ forward' = TRUE /\ apc' = "a_rel"                                                   \* buffer._forward = self.send
+        /\ UNCHANGED <<lists, dref, bufmsgs, anyAdded, lock, recv, lpc, lmsg, lstack, aj, aframe, nref>>
 ASIter == /\ apc = "siter"
           /\ IF aframe.idx <= Len(lists[aframe.lst])
-             THEN /\ recv' = Append(recv, bufmsgs[aj]) /\ aframe' = [aframe EXCEPT !.idx = @ + 1] /\ UNCHANGED <<apc, aj>>
-             ELSE /\ apc' = "loop" /\ aj' = aj + 1 /\ UNCHANGED <<recv, aframe>>
-          /\ UNCHANGED <<lists, dref, bufmsgs, anyAdded, forward, lock, lpc, lmsg, lstack>>
+             THEN /\ recv' = Append(recv, bufmsgs[aj]) /\ aframe' = [aframe EXCEPT !.idx = @ + 1] /\ UNCHANGED <<apc, aj, nref>>
+             ELSE /\ apc' = "loop" /\ aj' = aj + 1 /\ UNCHANGED <<recv, aframe, nref>>
+          /\ UNCHANGED <<lists, dref, bufmsgs, anyAdded, forward, lock, lpc, lmsg, lstack, nref>>
 ARel == /\ apc = "a_rel" /\ lock' = "none" /\ apc' = "done"
-        /\ UNCHANGED <<lists, dref, bufmsgs, anyAdded, forward, recv, lpc, lmsg, lstack, aj, aframe>>
-Next == LBegin \/ LIter \/ LBAcq \/ LBChk \/ LBApp \/ LBRel \/ LBRelF \/ A1 \/ A2 \/ A3 \/ AExt \/ AAcq \/ ALoop \/ ASIter \/ ARel
+        /\ UNCHANGED <<lists, dref, bufmsgs, anyAdded, forward, recv, lpc, lmsg, lstack, aj, aframe, nref>>
+Next == AFwd \/ LBegin \/ LIter \/ LBAcq \/ LBChk \/ LBApp \/ LBRel \/ LBRelF \/ A1 \/ A2 \/ A3 \/ AExt \/ AAcq \/ ALoop \/ ASIter \/ ARel
 Spec == Init /\ [][Next]_vars
 Done == lpc = "idle" /\ lmsg = K + 1 /\ apc = "done"
 Count(m) == Cardinality({i \in DOMAIN recv : recv[i] = m})
@@ -89,4 +100,7 @@ Count(m) == Cardinality({i \in DOMAIN recv : recv[i] = m})
 C12_NoLoss == Done => \A m \in 1..K : Count(m) >= 1
 C12_NoDup  == \A m \in 1..K : Count(m) <= 1
 C12_NoDeadlock == ~Done => ENABLED Next
+\* the single logger sends 1..K one after the other (emission order = 1..K) and whatever is in the buffer when add() starts is
+\* older than anything logged later: the destination is offered the messages in increasing order
+C12_InOrder == \A i, j \in DOMAIN recv : i < j => recv[i] < recv[j]
 =============================================================================
